@@ -31,7 +31,12 @@ const ServerName = "signer-test01"
 const (
 	WA = "Wallet A"
 	WB = "Wallet B"
+	WD = "Wallet D" // distributed wallet, present on every instance
 )
+
+// InstanceName is the name (and loopback address) of instance i of a cluster: peers reach each other
+// at these addresses, and their certificates carry them as subject and IP SAN.
+func InstanceName(i int) string { return fmt.Sprintf("127.0.0.%d", i+1) }
 
 type fixture struct {
 	dir   string // template directory: wallets/, certs/, pass.txt
@@ -79,6 +84,7 @@ func getFixture() (*fixture, error) {
 		f.world, fixErr = vkit.NewWorldIn(store, []vkit.WalletSpec{
 			{Name: WA, Accounts: []vkit.AccountSpec{{Name: "a", KeyIndex: 9101}, {Name: "b", KeyIndex: 9102}}},
 			{Name: WB, Accounts: []vkit.AccountSpec{{Name: "a", KeyIndex: 9103}, {Name: "c", KeyIndex: 9104}}},
+			{Name: WD, Distributed: true},
 		})
 		if fixErr != nil {
 			return
@@ -98,7 +104,19 @@ func getFixture() (*fixture, error) {
 		}
 		cd := filepath.Join(f.dir, "certs")
 		_ = os.MkdirAll(cd, 0o700)
-		for name, b := range map[string][]byte{"server.crt": cert, "server.key": key, "ca.crt": f.ca.CertPEM} {
+		files := map[string][]byte{"server.crt": cert, "server.key": key, "ca.crt": f.ca.CertPEM}
+		for i := 0; i < 4; i++ {
+			n := InstanceName(i)
+			c, k, err := f.ca.Leaf(vkit.LeafSpec{CN: n, IPs: []net.IP{net.ParseIP(n)}, NotBefore: time.Now().Add(-time.Hour), NotAfter: time.Now().Add(24 * time.Hour),
+				EKU: []x509.ExtKeyUsage{x509.ExtKeyUsageServerAuth, x509.ExtKeyUsageClientAuth}})
+			if err != nil {
+				fixErr = err
+
+				return
+			}
+			files[fmt.Sprintf("instance%d.crt", i)], files[fmt.Sprintf("instance%d.key", i)] = c, k
+		}
+		for name, b := range files {
 			if fixErr = os.WriteFile(filepath.Join(cd, name), b, 0o600); fixErr != nil {
 				return
 			}
@@ -139,6 +157,12 @@ func (f *fixture) clientCert(cn string, foreign bool) (*tls.Certificate, error) 
 type Config struct {
 	AdminIPs    []string                       `json:"admin_ips"`
 	Permissions map[string]map[string][]string `json:"permissions"` // client -> path -> operations
+	// Instance >= 0 makes the daemon member Instance of a cluster: it is called InstanceName(Instance),
+	// listens on that loopback address, has server id Instance+1 and knows Peers (id -> host:port).
+	Instance int               `json:"instance"`
+	Cluster  bool              `json:"cluster,omitempty"`
+	Peers    map[string]string `json:"peers,omitempty"`
+	Port     string            `json:"port,omitempty"`
 }
 
 // Daemon is one running dirk process on its own copy of the fixture.
@@ -147,13 +171,17 @@ type Daemon struct {
 	Dir    string
 	Addr   string
 	cfg    *Config
+	name   string
 	cmd    *exec.Cmd
 	exited chan error
 	log    string
 }
 
-func freePort() (string, error) {
-	l, err := net.Listen("tcp", "127.0.0.1:0")
+func freePort() (string, error) { return FreePortOn("127.0.0.1") }
+
+// FreePortOn finds a free TCP port on the host.
+func FreePortOn(host string) (string, error) {
+	l, err := net.Listen("tcp", host+":0")
 	if err != nil {
 		return "", err
 	}
@@ -199,17 +227,27 @@ func (d *Daemon) Start() error {
 		if err != nil {
 			return err
 		}
-		d.Addr = addr
+		name, id, crt, peers := ServerName, "1", "server", map[string]any{"1": ServerName + ":" + addr[len("127.0.0.1:"):]}
+		if d.cfg.Cluster {
+			// fixed address for the life of the cluster (the peers know it)
+			name, id, crt = InstanceName(d.cfg.Instance), fmt.Sprint(d.cfg.Instance+1), fmt.Sprintf("instance%d", d.cfg.Instance)
+			addr = name + ":" + d.cfg.Port
+			peers = map[string]any{}
+			for k, v := range d.cfg.Peers {
+				peers[k] = v
+			}
+		}
+		d.Addr, d.name = addr, name
 		doc := map[string]any{
 			"log-level": "warn",
 			"log-file":  d.log,
-			"server": map[string]any{"id": "1", "name": ServerName, "listen-address": addr,
+			"server": map[string]any{"id": id, "name": name, "listen-address": addr,
 				"rules": map[string]any{"admin-ips": d.cfg.AdminIPs}},
-			"certificates": map[string]any{"server-cert": fileURL(filepath.Join(d.Dir, "certs", "server.crt")), "server-key": fileURL(filepath.Join(d.Dir, "certs", "server.key")),
+			"certificates": map[string]any{"server-cert": fileURL(filepath.Join(d.Dir, "certs", crt+".crt")), "server-key": fileURL(filepath.Join(d.Dir, "certs", crt+".key")),
 				"ca-cert": fileURL(filepath.Join(d.Dir, "certs", "ca.crt"))},
 			"storage-path": filepath.Join(d.Dir, "storage"),
 			"stores":       []any{map[string]any{"name": "Local", "type": "filesystem", "location": filepath.Join(d.Dir, "wallets")}},
-			"peers":        map[string]any{"1": ServerName + ":" + addr[len("127.0.0.1:"):]},
+			"peers":        peers,
 			"unlocker":     map[string]any{"account-passphrases": []string{fileURL(filepath.Join(d.Dir, "pass.txt"))}},
 			"process":      map[string]any{"generation-passphrase": fileURL(filepath.Join(d.Dir, "pass.txt"))},
 			"permissions":  d.cfg.Permissions,
@@ -326,7 +364,7 @@ func (d *Daemon) Close() {
 func (d *Daemon) Dial(cn string, foreign bool) (*grpc.ClientConn, error) {
 	pool := x509.NewCertPool()
 	pool.AppendCertsFromPEM(d.f.ca.CertPEM)
-	cfg := &tls.Config{RootCAs: pool, ServerName: ServerName, MinVersion: tls.VersionTLS13}
+	cfg := &tls.Config{RootCAs: pool, ServerName: d.name, MinVersion: tls.VersionTLS13}
 	if cn != "" {
 		pair, err := d.f.clientCert(cn, foreign)
 		if err != nil {
